@@ -99,6 +99,16 @@ from .analyzer import (
 )
 
 
+def _unused_backup_path(path: str) -> str:
+    """Return path + '.bak', or path + '.bak1', '.bak2', ... if that name is already taken."""
+    candidate = path + '.bak'
+    n = 0
+    while os.path.exists(candidate):
+        n += 1
+        candidate = f"{path}.bak{n}"
+    return candidate
+
+
 def _migrate_csv_to_rules(csv_file: str, config_dir: str, backup: bool = True) -> bool:
     """
     Migrate merchant_categories.csv to merchants.rules format.
@@ -121,8 +131,10 @@ def _migrate_csv_to_rules(csv_file: str, config_dir: str, backup: bool = True) -
         csv_rules = load_merchant_rules(csv_file)
         content = csv_to_merchants_content(csv_rules)
 
-        # Write new file
+        # Write new file (keep a copy of a merchants.rules that is already there)
         new_file = os.path.join(config_dir, 'merchants.rules')
+        if os.path.exists(new_file):
+            shutil.move(new_file, _unused_backup_path(new_file))
         with open(new_file, 'w', encoding='utf-8') as f:
             f.write(content)
         print(f"  {C.GREEN}✓{C.RESET} Created: config/merchants.rules")
@@ -148,7 +160,7 @@ def _migrate_csv_to_rules(csv_file: str, config_dir: str, backup: bool = True) -
 
         # Backup old file
         if backup and os.path.exists(csv_file):
-            shutil.move(csv_file, csv_file + '.bak')
+            shutil.move(csv_file, _unused_backup_path(csv_file))
             print(f"  {C.GREEN}✓{C.RESET} Backed up: merchant_categories.csv → .bak")
 
         return True
